@@ -149,9 +149,16 @@ Theorem cond_accept_all_defined : forall s doms, load_cond_strict true s doms = 
 Proof. exact CondSensorsProofs.cond_accept_all_defined. Qed.
 Print Assumptions cond_accept_all_defined.
 
-Theorem sensors_uniform_columns : forall ls n k nc, sensors_load ls = SOk n k nc ->
+(* Sensors::load reads the file twice; when the counting pass and the reading pass ignore the same lines (the code:
+   the lines without any character, and only those) the reading pass reads exactly the counted lines *)
+Theorem sensors_passes_agree : forall (cskip rskip : sline -> bool) ls,
+  (forall l, cskip l = rskip l) -> read_rows rskip (length (counted cskip ls)) ls = counted cskip ls.
+Proof. exact CondSensorsProofs.sensors_passes_agree. Qed.
+Print Assumptions sensors_passes_agree.
+Theorem sensors_uniform_columns : forall ls n k nc rows, sensors_load ls = SOk n k nc rows ->
   let ne := filter (fun l => negb (s_empty l)) ls in
-  n = length ne /\ (3 <= nc)%nat /\ nc <> 4%nat /\ exists c, (c = nc \/ c = S nc) /\ forall l, In l ne -> s_ntok l = c.
+  n = length ne /\ (3 <= nc)%nat /\ nc <> 4%nat /\ map fst rows = map s_idx ne /\
+  exists c, (c = nc \/ c = S nc) /\ forall l, In l ne -> s_ntok l = c.
 Proof. exact CondSensorsProofs.sensors_uniform_columns. Qed.
 Print Assumptions sensors_uniform_columns.
 Theorem sensors_short_line_rejected : forall ls l0 t l,
